@@ -221,6 +221,13 @@ func runC19(t *testing.T, s *kit.Session, c c19Case) *kit.Failure {
 				return &kit.Failure{Cause: cause, Msg: fmt.Sprintf("VerifyMergeable said a signature by a not-yet-counted authorised principal is needed; recorder %d (%s; authorised=%v, already counted=%v) verifies=%v%s", o.recorder, o.form, authorised(o.recorder), o.counted, o.ok, describe())}
 			}
 		case "not-possible":
+			if o.ok && authorised(o.recorder) && !o.counted && ruleThresholdOne(spec) && s.IsKnown("C19-threshold-one-predicted-not-mergeable") {
+				// listed finding (pinned by the existing suite): with a threshold of 1
+				// and nobody counted yet the prediction is "not possible" although an
+				// authorised recorder's signature is all that is needed
+				s.KnownHit("C19-threshold-one-predicted-not-mergeable", c)
+				continue
+			}
 			if o.ok {
 				return &kit.Failure{Cause: "prediction-too-pessimistic", Msg: fmt.Sprintf("VerifyMergeable said the merge is not possible (%v) but recorded by %d (%s) it verifies%s", perr, o.recorder, o.form, describe())}
 			}
@@ -238,6 +245,16 @@ func runC19(t *testing.T, s *kit.Session, c c19Case) *kit.Failure {
 	}
 	s.Observe(c, nt, append(append([]string{}, c.Labels...), "prediction_"+prediction)...)
 	return nil
+}
+
+// ruleThresholdOne: is some consulted rule for main met by a single signature?
+func ruleThresholdOne(spec *kit.PolicySpec) bool {
+	for _, cr := range kit.Consulted(spec, "git:refs/heads/main") {
+		if cr.Threshold == 1 {
+			return true
+		}
+	}
+	return false
 }
 
 // alreadyCounted: is key r's principal credited by the stored approvals alone
